@@ -44,6 +44,12 @@ NOZERO = {"__add__", "__sub__", "logical_and", "logical_or", "logical_xor", "log
           "sptenmat_setitem"}
 
 
+# ... and every other operation that computes values: an explicit zero in a result is a stored "nonzero" for nnz, ==, !=, logical_not / and / or
+# (structure-based operators), so the next operation on that result would no longer follow the array it denotes
+NOZERO2 = {"__mul__", "__truediv__", "mul_scalar", "div_scalar", "mul_dense", "div_dense", "scale_sp", "scale_dense", "neg", "pos", "ones", "permute", "reshape",
+           "squeeze", "squash", "extract", "getitem_region", "copy", "mask", "sptenmat_rt"}
+
+
 def nontrivial(case):
     return max(case["na"], case.get("nb", 0)) >= 2
 
@@ -236,7 +242,7 @@ def run_case(case, ctx):
             for obj in (res if isinstance(res, (list, tuple)) else [res]):
                 if kind(obj) in ("sptensor", "sptenmat"):
                     ctx.evals += 1
-                    for p in wellformed(obj, nozero=(op in NOZERO)):
+                    for p in wellformed(obj, nozero=(op in NOZERO or op in NOZERO2)):
                         ctx.fail(opname, "ILLFORMED:" + _cls(p), p, identity_order=ident)
             try:
                 can = _canon(res)
